@@ -17,7 +17,7 @@ type compactKeyRole struct {
 	p      *Prog
 	field  *types.Var
 	ctors  map[*ssa.Function]bool
-	checkF *ssa.Function // the floor check
+	readGets []*ssa.Call // read-only comparisons of the record (the floor check proper)
 }
 
 func (p *Prog) compactKey() *compactKeyRole {
@@ -34,24 +34,129 @@ func (p *Prog) compactKey() *compactKeyRole {
 	if len(ck.ctors) == 0 {
 		brokenf("compaction record key: no constructor found for scanner.Config.CompactKey")
 	}
-	// floor check: function of the scanner package reachable from the Scanner read entry points that reads the record
-	var cands []*ssa.Function
+	// read-check gets: reads of the record in the scanner package from which no write of the record is reachable
+	// (the compaction path reads and then raises the record; the read path only compares)
 	for _, f := range p.AllFuncs {
 		if f.Pkg == nil || f.Pkg != p.ssaPkg("pkg/backend/scanner") {
 			continue
 		}
 		for _, c := range callsIn(f) {
-			if r.is(c, r.KVGet) && ck.isKey(argForSigParam(c, 1)) {
-				cands = append(cands, f)
-				break
+			cc, ok := c.(*ssa.Call)
+			if !ok || !r.is(c, r.KVGet) || !ck.isKey(argForSigParam(c, 1)) {
+				continue
+			}
+			writes := false
+			cp0 := posOf(cc)
+			searchFrom(cp0.b, cp0.i+1, searchOpts{bad: func(i ssa.Instruction) bool {
+				if w, ok := i.(ssa.CallInstruction); ok && w.Common().IsInvoke() {
+					m := w.Common().Method
+					if (m == r.BWPut || m == r.BWCAS || m == r.BWPutIfNotExist || m == r.BWDel) && ck.isKey(argForSigParam(w, 0)) {
+						writes = true
+						return true
+					}
+				}
+				return false
+			}})
+			if !writes {
+				ck.readGets = append(ck.readGets, cc)
 			}
 		}
 	}
-	if len(cands) != 1 {
-		brokenf("floor check role: expected exactly one scanner function reading the compaction record, found %d", len(cands))
+	if len(ck.readGets) == 0 {
+		brokenf("floor check role: no read-only comparison of the compaction record found in the scanner package")
 	}
-	ck.checkF = cands[0]
 	return ck
+}
+
+// floorCheckEntry: calling g with the given constant arguments leads (feasibly) to a read-check get, and g hands that
+// check's error back to its caller. Returns the index of g's uint64 (revision) parameter.
+func (ck *compactKeyRole) floorCheckEntry(g *ssa.Function, consts map[*ssa.Parameter]constant.Value, depth int) (int, bool) {
+	if g == nil || g.Blocks == nil || depth > 3 {
+		return -1, false
+	}
+	revIdx := -1
+	for i, prm := range g.Params {
+		if b, ok := prm.Type().Underlying().(*types.Basic); ok && b.Kind() == types.Uint64 {
+			revIdx = i
+		}
+	}
+	if revIdx < 0 {
+		return -1, false
+	}
+	feasible := feasibleBlocks(g, consts)
+	for _, get := range ck.readGets {
+		if get.Parent() == g && feasible[get.Block()] {
+			return revIdx, true
+		}
+	}
+	// dispatch helper: a feasible return hands back the result of a floor-check entry
+	for b := range feasible {
+		ret, ok := b.Instrs[len(b.Instrs)-1].(*ssa.Return)
+		if !ok || len(ret.Results) == 0 {
+			continue
+		}
+		c, ok := resolve(ret.Results[len(ret.Results)-1]).(*ssa.Call)
+		if !ok || c.Common().StaticCallee() == nil {
+			continue
+		}
+		sub := map[*ssa.Parameter]constant.Value{}
+		callee := c.Common().StaticCallee()
+		for i, prm := range callee.Params {
+			if i < len(c.Common().Args) {
+				a := resolve(c.Common().Args[i])
+				if k, ok := a.(*ssa.Const); ok && k.Value != nil {
+					sub[prm] = k.Value
+				} else if pp, ok := a.(*ssa.Parameter); ok {
+					if v, ok := consts[pp]; ok {
+						sub[prm] = v
+					}
+				}
+			}
+		}
+		if _, ok := ck.floorCheckEntry(callee, sub, depth+1); ok {
+			return revIdx, true
+		}
+	}
+	return -1, false
+}
+
+// feasibleBlocks: blocks of g reachable when parameters with constant actuals are folded.
+func feasibleBlocks(g *ssa.Function, consts map[*ssa.Parameter]constant.Value) map[*ssa.BasicBlock]bool {
+	seen := map[*ssa.BasicBlock]bool{}
+	work := []*ssa.BasicBlock{g.Blocks[0]}
+	for len(work) > 0 {
+		b := work[0]
+		work = work[1:]
+		if seen[b] {
+			continue
+		}
+		seen[b] = true
+		if t, ok := b.Instrs[len(b.Instrs)-1].(*ssa.If); ok {
+			cond := resolve(t.Cond)
+			if prm, ok := cond.(*ssa.Parameter); ok {
+				if v, ok := consts[prm]; ok && v.Kind() == constant.Bool {
+					if constant.BoolVal(v) {
+						work = append(work, b.Succs[0])
+					} else {
+						work = append(work, b.Succs[1])
+					}
+					continue
+				}
+			}
+			if bo, ok := cond.(*ssa.BinOp); ok {
+				if val, ok := foldCmp(bo, consts); ok {
+					if val {
+						work = append(work, b.Succs[0])
+					} else {
+						work = append(work, b.Succs[1])
+					}
+					continue
+				}
+			}
+		}
+		work = append(work, b.Succs...)
+	}
+	return seen
 }
 
 func (ck *compactKeyRole) isKey(v ssa.Value) bool {
@@ -203,9 +308,14 @@ func guardNotGreater(cf condFact, oldVal, newRev ssa.Value) bool {
 }
 
 func checkFloorCheckShape(p *Prog, r *Roles, ck *compactKeyRole, res *Result) {
-	f := ck.checkF
+	for _, get := range ck.readGets {
+		checkFloorCheckShapeAt(p, r, ck, res, get)
+	}
+}
+
+func checkFloorCheckShapeAt(p *Prog, r *Roles, ck *compactKeyRole, res *Result, get *ssa.Call) {
+	f := get.Parent()
 	var revParam, compactParam *ssa.Parameter
-	nb := 0
 	for _, prm := range f.Params {
 		if b, ok := prm.Type().Underlying().(*types.Basic); ok {
 			if b.Kind() == types.Uint64 {
@@ -213,28 +323,11 @@ func checkFloorCheckShape(p *Prog, r *Roles, ck *compactKeyRole, res *Result) {
 			}
 			if b.Kind() == types.Bool {
 				compactParam = prm
-				nb++
 			}
 		}
 	}
-	if revParam == nil || compactParam == nil || nb != 1 {
-		res.und("C08-R4", funcName(f), p.pos(f.Pos()), "cannot identify the (revision uint64, compact bool) parameters of the floor check")
-		return
-	}
-	// the read of the record on the non-compact path
-	var get *ssa.Call
-	for _, c := range callsIn(f) {
-		cc, ok := c.(*ssa.Call)
-		if !ok || !r.is(c, r.KVGet) || !ck.isKey(argForSigParam(c, 1)) {
-			continue
-		}
-		if dominatedByParam(c.Block(), compactParam, true) {
-			continue
-		}
-		get = cc
-	}
-	if get == nil {
-		res.und("C08-R4", funcName(f), p.pos(f.Pos()), "no read of the compaction record on the compact=false path")
+	if revParam == nil {
+		res.und("C08-R4", funcName(f), p.pos(f.Pos()), "cannot identify the revision parameter of the floor check")
 		return
 	}
 	val := extractsOf(get)[0]
@@ -244,7 +337,7 @@ func checkFloorCheckShape(p *Prog, r *Roles, ck *compactKeyRole, res *Result) {
 	refuses := false
 	for _, b := range f.Blocks {
 		ret, ok := b.Instrs[len(b.Instrs)-1].(*ssa.Return)
-		if !ok || dominatedByParam(b, compactParam, true) || !get.Block().Dominates(b) {
+		if !ok || (compactParam != nil && dominatedByParam(b, compactParam, true)) || !get.Block().Dominates(b) {
 			continue
 		}
 		facts := dominatingFacts(b)
@@ -378,17 +471,7 @@ func checkRangeReadsGuarded(p *Prog, r *Roles, ck *compactKeyRole, res *Result) 
 			}
 		}
 	}
-	var compactParamIdx, revParamIdx = -1, -1
-	for i, prm := range ck.checkF.Params {
-		if b, ok := prm.Type().Underlying().(*types.Basic); ok {
-			if b.Kind() == types.Bool {
-				compactParamIdx = i
-			}
-			if b.Kind() == types.Uint64 {
-				revParamIdx = i
-			}
-		}
-	}
+	revParamIdx := -1
 	wcRev := p.structField("pkg/backend/scanner", "workerConfig", "revision")
 	wcTso := p.structField("pkg/backend/scanner", "workerConfig", "tso")
 
@@ -414,22 +497,28 @@ func checkRangeReadsGuarded(p *Prog, r *Roles, ck *compactKeyRole, res *Result) 
 		var guards []guard
 		for _, c := range callsIn(f) {
 			cc, ok := c.(*ssa.Call)
-			if !ok || cc.Common().StaticCallee() != ck.checkF {
+			if !ok || cc.Common().StaticCallee() == nil || cc.Common().StaticCallee().Pkg != f.Pkg {
 				continue
 			}
-			carg := resolve(cc.Common().Args[compactParamIdx])
-			isFalse := false
-			if k, ok := carg.(*ssa.Const); ok && k.Value != nil && k.Value.Kind() == constant.Bool && !constant.BoolVal(k.Value) {
-				isFalse = true
-			}
-			if prm, ok := carg.(*ssa.Parameter); ok {
-				if v, ok := fr.consts[prm]; ok && v.Kind() == constant.Bool && !constant.BoolVal(v) {
-					isFalse = true
+			callee := cc.Common().StaticCallee()
+			sub := map[*ssa.Parameter]constant.Value{}
+			for i, prm := range callee.Params {
+				if i < len(cc.Common().Args) {
+					a := resolve(cc.Common().Args[i])
+					if k, ok := a.(*ssa.Const); ok && k.Value != nil {
+						sub[prm] = k.Value
+					} else if pp, ok := a.(*ssa.Parameter); ok {
+						if v, ok := fr.consts[pp]; ok {
+							sub[prm] = v
+						}
+					}
 				}
 			}
-			if !isFalse {
+			ri, isCheck := ck.floorCheckEntry(callee, sub, 0)
+			if !isCheck {
 				continue
 			}
+			revParamIdx = ri
 			call := cc
 			guards = append(guards, guard{call: call, okEdgeBlocks: func(b *ssa.BasicBlock) bool {
 				// b is dominated by the edge "result == nil" of this call
@@ -480,7 +569,11 @@ func checkRangeReadsGuarded(p *Prog, r *Roles, ck *compactKeyRole, res *Result) 
 					construct := fmt.Sprintf("%s: scan below %s is guarded by the floor check", funcName(entry), funcName(f))
 					res.ok("C08-R2", construct, p.pos(g.Pos()), "floor check (compact=false) dominates the scan and its non-nil result returns first; chain: "+fr.chain)
 					// R2': the checked revision is the scan revision; R3: snapshot before check
-					checkGuardDetails(p, r, ck, res, f, g, revParamIdx, wcRev, wcTso)
+					ri, _ := ck.floorCheckEntry(g.Common().StaticCallee(), nil, 0)
+					if ri < 0 {
+						ri = revParamIdx
+					}
+					checkGuardDetails(p, r, ck, res, f, g, ri, wcRev, wcTso)
 					continue
 				}
 				if isIter {
